@@ -24,6 +24,8 @@ type Opts struct {
 	NoBase64Binary bool `json:"no_base64,omitempty"`
 	ValueMapping   bool `json:"value_mapping,omitempty"` // api.js_conv fields are strings
 	String2Int64   bool `json:"string2int64,omitempty"`
+	// AnyOrder: Expect matches struct members by key instead of by position (for checks where the order of members is not part of the property)
+	AnyOrder bool `json:"any_order,omitempty"`
 }
 
 // Key is the JSON member name of a field: the api.key alias when declared, else the field name.
@@ -202,6 +204,27 @@ func expect(n *jmodel.Node, v *tm.Value, ty *tm.Type, u *tm.Universe, o Opts, pa
 			return fmt.Sprintf("%s: want an object, got %s", path, n)
 		}
 		sd := u.Struct(ty.Ref)
+		if o.AnyOrder {
+			cnt := 0
+			for _, f := range v.Fields {
+				fd := sd.Field(f.ID)
+				if fd == nil {
+					continue
+				}
+				cnt++
+				m := n.Get(Key(fd))
+				if m == nil {
+					return fmt.Sprintf("%s: member %q for field %d is missing; members %q", path, Key(fd), f.ID, n.Keys)
+				}
+				if d := expect(m, f.V, fd.T, u, o, path+"."+Key(fd), o.ValueMapping && JSConv(fd)); d != "" {
+					return d
+				}
+			}
+			if cnt != len(n.Keys) {
+				return fmt.Sprintf("%s: %d members %q, expected %d fields %v", path, len(n.Keys), n.Keys, cnt, fieldIDs(v))
+			}
+			return ""
+		}
 		j := 0
 		for _, f := range v.Fields {
 			fd := sd.Field(f.ID)
@@ -226,6 +249,14 @@ func expect(n *jmodel.Node, v *tm.Value, ty *tm.Type, u *tm.Universe, o Opts, pa
 	return ""
 }
 
+func fieldIDs(v *tm.Value) []int16 {
+	var ids []int16
+	for _, f := range v.Fields {
+		ids = append(ids, f.ID)
+	}
+	return ids
+}
+
 // ---------------------------------------------------------------------------
 // writer
 
@@ -238,6 +269,8 @@ type WOpts struct {
 	UseNames int  // 0: alias when declared else name; 1: always the field name (MapFieldUseFieldName / UseBoth); 2: mixed (UseBoth)
 	// Contradict: replace one value by a JSON value whose kind contradicts the descriptor (Doc.Contradiction says where)
 	Contradict bool
+	// NullAny: null members may also stand for absent required fields
+	NullAny bool
 }
 
 // Doc is the result of writing: the JSON text and the value it denotes (document order, nulls omitted).
@@ -453,7 +486,7 @@ func (wr *writer) value(v *tm.Value, ty *tm.Type, jsconv bool, depth int) *tm.Va
 				var cands []*tm.FieldDef
 				for i := range sd.Fields {
 					fd := &sd.Fields[i]
-					if fd.Req != tm.ReqRequired && v.Field(fd.ID) == nil && !nulled[fd.ID] {
+					if (fd.Req != tm.ReqRequired || wr.o.NullAny) && v.Field(fd.ID) == nil && !nulled[fd.ID] {
 						cands = append(cands, fd)
 					}
 				}
